@@ -20,6 +20,7 @@ RULE = ('pages with 0-8 lines; sparse matrices 1-60 x 2-40 (float64 and float32,
         'missing_line_logits_ok. non-trivial = page with >= 2 lines of different shapes; distinct = hash of the page description Absent lines with look-alike ids; legacy files with exactly one side table. Refused save over an existing file; partial logits file with stale XML texts; stored confidences rounded by PAGE XML with a drop threshold; explicitly stored zeros.')
 RULE += ' Round 6: Rebuild of an imported and re-ordered layout; an incomplete line with a complete twin of the same id.'
 RULE += ' Round 7: Legacy windows edited in place after loading; saves under a bare file name.'
+RULE += ' Round 8: Matrices with a cell stored twice; files addressed by path objects.'
 ASSUMPTIONS = ['0.0 is the sparse format\'s "pruned" marker: a genuine logit is never exactly 0.0, and an explicitly stored 0.0 means pruned as well', 'line ids are unique within a page',
                'the end-to-end leg uses transcriptions with plain single spaces, geometry inside the page; both layouts go through the same decoder and exporter']
 N = {'quick': 500, 'thorough': 30000}
